@@ -78,6 +78,16 @@ class C05(Property):
         ("antismash/common/secmet/features/feature.py", "Feature.start"),
         ("antismash/common/secmet/features/feature.py", "Feature.end"),
         ("antismash/common/secmet/features/feature.py", "Feature.overlaps_with"),
+        ("antismash/common/secmet/features/candidate_cluster/structures.py", "CandidateCluster.kind"),
+        ("antismash/common/secmet/features/candidate_cluster/structures.py", "CandidateCluster.protoclusters"),
+        ("antismash/common/secmet/features/protocluster.py", "Protocluster.core_location"),
+        ("antismash/common/secmet/features/feature.py", "Feature.__init__"),
+        ("antismash/common/secmet/features/feature.py", "Feature.is_contained_by"),
+        ("antismash/common/secmet/features/feature.py", "Feature.crosses_origin"),
+        ("antismash/common/secmet/locations.py", "_LocationMixin.crosses_origin"),
+        ("antismash/common/secmet/locations.py", "_LocationMixin.contains"),
+        ("antismash/common/secmet/locations.py", "location_bridges_origin"),
+        ("antismash/common/secmet/locations.py", "split_origin_bridging_location"),
         ("antismash/common/secmet/record.py", "Record.create_candidate_clusters"),
         ("antismash/common/secmet/locations.py", "connect_locations"),
         ("antismash/common/secmet/locations.py", "locations_overlap"),
@@ -93,12 +103,14 @@ class C05(Property):
             "is re-run with the protoclusters supplied in every order (<= 4) or in seeded shuffles and must give the identical ordered result; non-trivial = at least "
             "one candidate of a kind other than single; distinct by canonical input")
     TRUSTED = ["Python set/dict semantics (identity sets of protoclusters); the iteration order of a set is arbitrary, the model "
-               "uses insertion order; after fix D507 no observable depends on it (candidate order and member order are compared exactly)",
+               "uses insertion order; after fix D507 no observable depends on it (candidate order and member order are compared "
+               "exactly, and `formation_perm_invariant` proves the model's ordered result independent of the input order)",
                "`sorted()` with CDSCollection.__lt__ is modelled as CPython's list.sort for fewer than 64 elements (count_run + "
-               "binary insertion); longer lists are outside the modelled domain",
-               "connect_locations on a ring is taken from the C04 model (proved on a line, small-scope correspondence on a ring)",
+               "binary insertion, proved to be a permutation); longer lists are outside the modelled domain",
                "all protocluster locations are forward-strand areas (one part, or two parts meeting at the origin)",
-               "definition CDSs are represented by gene numbers (the code only intersects the sets)"]
+               "definition CDSs are represented by gene numbers (the code only intersects the sets)",
+               "`CDSCollection.parent` setter (the containment assert it runs is modelled in mkCand / buildOne, the setter itself "
+               "is not in SHAPE because the guard cannot address the second `def parent`)"]
 
     # ------------------------------------------------------------------ generators
     def rand_proto(self, rng: random.Random, length: int, circular: bool, others: List[Dict[str, Any]]) -> Dict[str, Any]:
@@ -344,7 +356,7 @@ class C05(Property):
                         continue
                     total += 1
                     yield {"wrap": wrap, "len": 12, "ps": name_products([protos[i] for i in combo])}
-            for _ in range(3000 if full else 400):
+            for _ in range(2000 if full else 300):
                 combo = sorted(rng.randrange(len(protos)) for _ in range(4))
                 total += 1
                 yield {"wrap": wrap, "len": 12, "ps": name_products([protos[i] for i in combo])}
@@ -353,13 +365,13 @@ class C05(Property):
                                "small_scope_complete_up_to": 3 if full else 2}
 
     def cases(self, rng: random.Random, tier: str, deep: bool) -> Iterator[Dict[str, Any]]:
-        n_random = 10000 if deep else 2200
+        n_random = 8000 if deep else 1900
         n_directed = 6000 if deep else 1200
 
         def with_perms(case: Dict[str, Any], small: bool = False) -> Dict[str, Any]:
             n = len(case["ps"])
             if small:       # exhaustive family: every pair in both orders, larger ones in a few orders
-                case["perms"] = "all" if n <= 2 else 2
+                case["perms"] = "all" if n <= 2 else (1 if deep else 2)
             elif deep:
                 case["perms"] = "all" if n <= 4 else 10
             else:
